@@ -768,6 +768,10 @@ func sliceParserRule(c *core.Ctx, fn *ssa.Function, sums []parserSummary) {
 					}
 				}
 			}
+			// the copy's destination is as long as what is copied: make(length)
+			if ml := p.LinOf(x.Len).Add(p.LinOf(fields["length"]), -1); !ml.IsConst() || ml.C != 0 {
+				problems = append(problems, "the buffer the value is copied into is not `length` octets long (difference "+ml.String()+"): the stored value is cut short or padded with zeros")
+			}
 		}
 		var vroot ssa.Value
 		var voff prover.Lin
